@@ -706,15 +706,16 @@ def directed(rng, max_cycles) -> list[Case]:
 
 
 def _mk_random(args):
-    return random_case(*args)
+    c = random_case(*args)
+    return c, _memo.get(c.key())
 
 
 def gen_cases(ctx: Check) -> list[Case]:
     rng = ctx.rng("gen")
     max_cycles = ctx.pick(1024, 1024)
     cases = directed(rng, max_cycles)
-    n_small = ctx.pick(70, 1500)
-    n_big = ctx.pick(12, 300)
+    n_small = ctx.pick(70, 800)
+    n_big = ctx.pick(12, 150)
     specs = []
     for k in range(n_small):
         specs.append((rng.getrandbits(48), rng.choice([5, 6, 7, 8, 9, 9, 10, 10]), rng.choice([6, 8, 10]), rng.choice([3, 3, 4]), max_cycles))
@@ -724,7 +725,9 @@ def gen_cases(ctx: Check) -> list[Case]:
     if procs > 1:
         with mp.get_context("fork").Pool(procs) as pool:
             made = pool.map(_mk_random, specs, chunksize=8)
-        for c in made:  # the memo of the workers is lost; recompute lazily in impl (forked again by lockstep)
+        for c, out in made:  # keep the workers' observations (one simulation per case)
+            if out is not None:
+                _memo[c.key()] = out
             cases.append(c)
     else:
         cases += [random_case(*s) for s in specs]
